@@ -1147,6 +1147,278 @@ def circuit_search(ctx):
     ctx.ob("C10_search_circuit", len(ctx.failures) == before, "search", "" if len(ctx.failures) == before else "failing inputs found")
 
 
+# ---------------------------------------------------------------------------
+# (4) histories: in-place parameter updates, repeated calls, shared gate objects
+
+
+def _pvalue(vals):
+    """the value `gate.parameters = …` / one entry of set_parameters expects."""
+    return float(vals[0]) if len(vals) == 1 else tuple(float(v) for v in vals)
+
+
+def _distinct_vals(rng, k):
+    """two parameter tuples whose gates differ beyond a phase (generic, no 2 pi coincidences)."""
+    v0 = [rng.choice([0.3, -1.1, 2.0, 0.7, -2.6, 1.234]) + rng.uniform(-0.05, 0.05) for _ in range(k)]
+    v1 = [x + rng.choice([0.9, -1.3, 1.7]) for x in v0]
+    if k and rng.random() < 0.3:  # update to a boundary value (a different branch of _u3_to_gpi2)
+        v1[rng.randrange(k)] = rng.choice([0.0, -math.pi, math.pi / 2])
+    return v0, v1
+
+
+UPDATE_MODES = ["attr", "set_list", "set_dict", "set_flat"]
+
+
+def _update_code(mode, n, vals):
+    pv = _pvalue(vals)
+    if mode == "attr":
+        return f"g.parameters = {pv!r}\n"
+    head = f"c = Circuit({n}); c.add(g)\n"
+    if mode == "set_list":
+        return head + f"c.set_parameters([{pv!r}])\n"
+    if mode == "set_dict":
+        return head + f"c.set_parameters({{g: {pv!r}}})\n"
+    return head + f"c.set_parameters({[float(v) for v in vals]!r})\n"
+
+
+def _apply_update(mode, g, n, vals):
+    from qibo import Circuit
+
+    pv = _pvalue(vals)
+    if mode == "attr":
+        g.parameters = pv
+        return
+    c = Circuit(n)
+    c.add(g)
+    if mode == "set_list":
+        c.set_parameters([pv])
+    elif mode == "set_dict":
+        c.set_parameters({g: pv})
+    else:
+        c.set_parameters([float(v) for v in vals])
+
+
+def history_search(ctx):
+    from qibo import Circuit
+
+    gates, D, U = modules()
+    infos = qgates.gate_infos()
+    rng = ctx.rng
+    nb = qgates.np_backend()
+    before = len(ctx.failures)
+    OB = ["C10_search_history"]
+    param_classes = [n for n in sorted(infos) if infos[n].generic and infos[n].np > 0]
+
+    def good(out, ref_gates, n, ns, tol=1e-7):
+        """out is all-native (if ns given) and acts as ref_gates up to a phase."""
+        out = as_list(out)
+        if ns is not None and not only_native(out, ns):
+            return "non-native gates"
+        if not qgates.phase_equal(full_of(out, n), full_of(ref_gates, n), tol):
+            return "operator of the gate's CURRENT parameters not reproduced"
+        return None
+
+    # (a) translate, update in place, translate the same object again
+    for sname, ns, s1, s2 in native_sets():
+        for name in param_classes:
+            info = infos[name]
+            if not supported(name, info.nq, s1, s2):
+                continue
+            modes = UPDATE_MODES if ctx.thorough else [UPDATE_MODES[0], rng.choice(UPDATE_MODES[1:])]
+            for mode in modes:
+                n = info.nq + 1
+                qs = rng.sample(range(n), info.nq)
+                v0, v1 = _distinct_vals(rng, info.np)
+                ctx.case(("history_a", sname, name, mode))
+                ctx.stat("history_gate_update")
+                code = (REPLAY_PRE + f"ns = natives({flag_names(ns)})\ng = {make_code(name, qs, v0)}\nfirst = translate_gate(g, ns)\n"
+                        + _update_code(mode, n, v1) + f"ref = {make_code(name, qs, v1)}\nout = translate_gate(g, ns)\n"
+                        f"assert only_native(out, ns) and phase_equal(full(out, {n}), full([ref], {n}), 1e-6)\n")
+                try:
+                    g = info.make(list(qs), v0)
+                    first = as_list(U.translate_gate(g, ns))
+                    e0 = good(first, [info.make(list(qs), v0)], n, ns)
+                    _apply_update(mode, g, n, v1)
+                    out = as_list(U.translate_gate(g, ns))
+                    e1 = good(out, [info.make(list(qs), v1)], n, ns)
+                except Exception as e:
+                    if is_magic_basis_refusal(e):
+                        continue
+                    e0, e1 = None, f"raises {type(e).__name__}: {e}"
+                if e0 is None and e1 is not None:
+                    ctx.fail(f"history:gate_update_{mode}", f"translate_gate on {name}{tuple(qs)} after an in-place parameter update ({mode}) "
+                             f"{v0} -> {v1} under {sname}: {e1}", code, expected=f"translation of {name} with {v1}", observed=e1, broken=OB)
+
+    # (d) the tables called directly before and after an update
+    tables = [(t, getattr(D, t)) for t in TABLE_NAMES + ["standard_decompositions"] if hasattr(D, t)]
+    for tname, table in tables:
+        for cls in sorted(table.decompositions, key=lambda c: c.__name__):
+            name = cls.__name__
+            if name not in infos or not infos[name].generic or not infos[name].np or name in NUMERIC_CLASSES - {"fSim"}:
+                continue
+            info = infos[name]
+            n = info.nq
+            qs = list(range(n))
+            rng.shuffle(qs)
+            v0, v1 = _distinct_vals(rng, info.np)
+            ctx.case(("history_d", tname, name))
+            ctx.stat("history_table_update")
+            call = "t(g, nb)" if tname != "standard_decompositions" else "t(g)"
+            code = (REPLAY_PRE + f"from qibo.transpiler import decompositions as D\nt = D.{tname}\ng = {make_code(name, qs, v0)}\n"
+                    f"first = {call}\ng.parameters = {_pvalue(v1)!r}\nout = {call}\nref = {make_code(name, qs, v1)}\n"
+                    f"fresh = {call.replace('(g', '(ref')}\nassert phase_equal(full(out, {n}), full(fresh, {n}), 1e-6)\n")
+            try:
+                g = info.make(qs, v0)
+                first = table(g, nb)
+                g.parameters = _pvalue(v1)
+                out = table(g, nb)
+                fresh = table(info.make(qs, v1), nb)
+                err = good(out, fresh, n, None, 1e-6)
+            except Exception as e:
+                if is_magic_basis_refusal(e):
+                    continue
+                err = f"raises {type(e).__name__}: {e}"
+            if err:
+                ctx.fail(f"history:table_update:{tname}", f"{tname}({name}) called again after g.parameters = {v1} differs from the table applied "
+                         f"to a fresh {name}: {err}", code, observed=err, broken=OB)
+
+    # (b), (c) circuits: the same Unroller object, updates in between, shared gate objects, aliasing of outputs
+    for it in range(40 if ctx.thorough else 14):
+        sname, ns, s1, s2 = rng.choice(native_sets())
+        pool1 = [x for x in ONE_Q_COMMON + (ONE_Q_U3_ONLY if s1 == "U3" else []) if x in infos]
+        pool2 = [x for x in (TWO_Q_CNOT if s2 == ("CNOT",) else TWO_Q_CZ) if x in infos and infos[x].generic and x != "fSim"]
+        ppool = [x for x in pool1 + pool2 if infos[x].np]
+        n = rng.randint(2, 3)
+        recipe = []
+        for _ in range(rng.randint(2, 6)):
+            name = rng.choice(ppool if rng.random() < 0.7 else pool1 + pool2)
+            info = infos[name]
+            if info.nq > n:
+                continue
+            recipe.append((name, rng.sample(range(n), info.nq), _distinct_vals(rng, info.np)))
+        if not any(infos[a].np for a, _, _ in recipe):
+            continue
+        ctx.case(("history_bc", sname, tuple(a for a, _, _ in recipe)))
+        ctx.stat("history_circuits")
+
+        def build(which, recipe=recipe, n=n):
+            c = Circuit(n)
+            for name, qs, (v0, v1) in recipe:
+                c.add(infos[name].make(list(qs), v1 if which else v0))
+            return c
+
+        bcode = f"c = Circuit({n})\n" + "".join(f"c.add({make_code(a, b, v[0])})\n" for a, b, v in recipe)
+        fcode = f"f = Circuit({n})\n" + "".join(f"f.add({make_code(a, b, v[1])})\n" for a, b, v in recipe)
+        new_list = [_pvalue(v[1]) for a, b, v in recipe if infos[a].np]
+        new_flat = [float(x) for a, b, v in recipe for x in v[1]]
+        fmt = rng.choice(["list", "flat", "dict"])
+        pre = REPLAY_PRE + f"ns = natives({flag_names(ns)})\nu = Unroller(ns)\n" + bcode + fcode
+        try:
+            # (b1) same Unroller, same circuit, set_parameters in between
+            c = build(0)
+            u = U.Unroller(ns)
+            r0 = u(c)
+            if good(list(r0.queue), list(build(0).queue), n, ns, 1e-6):
+                continue  # a first-call failure is the business of the other suites
+            if fmt == "list":
+                c.set_parameters(new_list)
+                upd = f"c.set_parameters({new_list!r})\n"
+            elif fmt == "flat":
+                c.set_parameters(new_flat)
+                upd = f"c.set_parameters({new_flat!r})\n"
+            else:
+                c.set_parameters({g: _pvalue(v[1]) for g, (a, b, v) in zip(c.queue, recipe) if infos[a].np})
+                upd = "c.set_parameters({g: p for g, p in zip([g for g in c.queue if g.parameters], " + repr(new_list) + ")})\n"
+            r1 = u(c)
+            err = good(list(r1.queue), list(build(1).queue), n, ns, 1e-6)
+            if err:
+                ctx.fail("history:unroller_twice", f"the same Unroller({sname}) applied to the same circuit after set_parameters ({fmt}): {err}",
+                         pre + "u(c)\n" + upd + f"r = u(c)\nassert only_native(r.queue, ns) and phase_equal(full(r.queue, {n}), full(f.queue, {n}), 1e-6)\n",
+                         observed=err, broken=OB)
+            # a brand-new Unroller on the updated circuit as well
+            err = good(list(U.Unroller(ns)(c).queue), list(build(1).queue), n, ns, 1e-6)
+            if err:
+                ctx.fail("history:new_unroller_after_update", f"a new Unroller({sname}) on a circuit that was unrolled before its set_parameters ({fmt}): {err}",
+                         pre + "u(c)\n" + upd + f"r = Unroller(ns)(c)\nassert only_native(r.queue, ns) and phase_equal(full(r.queue, {n}), full(f.queue, {n}), 1e-6)\n",
+                         observed=err, broken=OB)
+            # (b2) two circuits sharing gate objects, gate updated between the two unrollings
+            c1 = build(0)
+            u = U.Unroller(ns)
+            u(c1)
+            c2 = Circuit(n)
+            for g, (a, b, v) in zip(list(c1.queue), recipe):
+                if infos[a].np:
+                    g.parameters = _pvalue(v[1])
+                c2.add(g)
+            extra = gates.H(0)
+            c2.add(extra)
+            ref = list(build(1).queue) + [gates.H(0)]
+            err = good(list(u(c2).queue), ref, n, ns, 1e-6)
+            if err:
+                ctx.fail("history:shared_gates", f"Unroller({sname}) on a second circuit sharing (updated) gate objects with an already unrolled one: {err}",
+                         pre + "u(c)\nc2 = Circuit(c.nqubits)\nfor g, h in zip(c.queue, f.queue):\n    if g.parameters: g.parameters = h.parameters if len(h.parameters) > 1 else h.parameters[0]\n    c2.add(g)\n"
+                         f"r = u(c2)\nassert only_native(r.queue, ns) and phase_equal(full(r.queue, {n}), full(f.queue, {n}), 1e-6)\n",
+                         observed=err, broken=OB)
+            # (c) second call without update: same result; outputs are not aliased
+            c = build(0)
+            u = U.Unroller(ns)
+            ra = u(c)
+            rb = u(c)
+            sig = lambda circ: [(g.__class__.__name__, tuple(g.qubits), Shapes.pkey(g)[1]) for g in circ.queue]
+            if sig(ra) != sig(rb):
+                ctx.fail("history:second_call", f"Unroller({sname}) applied twice to the same unchanged circuit returns different gate lists",
+                         pre + "sig = lambda q: [(g.name, g.qubits, [np.asarray(p).tolist() for p in g.parameters]) for g in q]\n"
+                         "assert sig(u(c).queue) == sig(u(c).queue)\n", broken=OB)
+            # scramble the parameters of the first output, then translate again
+            for g in ra.queue:
+                k = len(g.parameters)
+                if k and g.__class__.__name__ not in ("Unitary", "M"):
+                    g.parameters = _pvalue([1.2345 + 0.5 * i for i in range(k)])
+            err = good(list(u(c).queue), list(build(0).queue), n, ns, 1e-6) or good(list(rb.queue), list(build(0).queue), n, ns, 1e-6)
+            if err:
+                ctx.fail("history:alias", f"changing the parameters of the gates of one Unroller({sname}) output changes another / a later output: {err}",
+                         pre + "ra = u(c); rb = u(c)\nfor g in ra.queue:\n    k = len(g.parameters)\n"
+                         "    if k and g.name not in ('measure',) and g.__class__.__name__ != 'Unitary': g.parameters = tuple(1.2345 + 0.5 * i for i in range(k)) if k > 1 else 1.2345\n"
+                         f"r = u(c)\nassert phase_equal(full(r.queue, {n}), full(c.queue, {n}), 1e-6) and phase_equal(full(rb.queue, {n}), full(c.queue, {n}), 1e-6)\n",
+                         observed=err, broken=OB)
+        except Exception as e:
+            if is_magic_basis_refusal(e):
+                continue
+            ctx.fail("history:raises", f"history suite on Unroller({sname}) raises {type(e).__name__}: {e}", pre + "u(c); u(c)\n",
+                     observed=f"{type(e).__name__}: {e}", broken=OB)
+
+    # (c') gate level: two calls on one object, outputs not aliased
+    for sname, ns, s1, s2 in native_sets():
+        for name in (param_classes if ctx.thorough else rng.sample(param_classes, min(6, len(param_classes)))):
+            info = infos[name]
+            if not supported(name, info.nq, s1, s2):
+                continue
+            n = info.nq
+            qs = list(range(n))
+            v0, _ = _distinct_vals(rng, info.np)
+            ctx.case(("history_c", sname, name))
+            try:
+                g = info.make(qs, v0)
+                a = as_list(U.translate_gate(g, ns))
+                for x in a:
+                    k = len(x.parameters)
+                    if k and x.__class__.__name__ != "Unitary":
+                        x.parameters = _pvalue([0.4321 + 0.3 * i for i in range(k)])
+                b = as_list(U.translate_gate(g, ns))
+                err = good(b, [info.make(qs, v0)], n, ns)
+            except Exception as e:
+                if is_magic_basis_refusal(e):
+                    continue
+                err = f"raises {type(e).__name__}: {e}"
+            if err:
+                ctx.fail("history:gate_alias", f"translate_gate({name}, {sname}) called again after the first result's gates were re-parametrised: {err}",
+                         REPLAY_PRE + f"ns = natives({flag_names(ns)})\ng = {make_code(name, qs, v0)}\na = translate_gate(g, ns)\nfor x in a:\n    k = len(x.parameters)\n"
+                         "    if k: x.parameters = tuple(0.4321 + 0.3 * i for i in range(k)) if k > 1 else 0.4321\n"
+                         f"b = translate_gate(g, ns)\nassert only_native(b, ns) and phase_equal(full(b, {n}), full([g], {n}), 1e-6)\n",
+                         observed=err, broken=OB)
+    new = [f["key"] for f in ctx.failures[before:]]
+    ctx.ob("C10_search_history", not new, "search", "" if not new else "failing histories: " + ", ".join(new[:6]))
+
+
 def selfcheck(ctx):
     """the harness's own embedding against vlib's reference (guards the spec side)."""
     rng = ctx.rng
@@ -1185,9 +1457,13 @@ def run(ctx):
     unitary_search(ctx)
     circuit_search(ctx)
     lap("unitary_circuit_search")
+    history_search(ctx)
+    lap("history_search")
     ctx.trusted.append("LAPACK eig/qr/svd inside two_qubit_decomposition and np.angle/arctan2 inside u3_decomposition are oracles: "
                        "their results are checked numerically (1e-6) on the seeded corpus, not proved")
     ctx.notes.append("kernel obligations for all parameter values: every entry of the six translation tables and the real translate_gate "
                      "under the 8 native sets (all branches of _u3_to_gpi2); dispatch model vs real translate_gate/Unroller/"
                      "assert_decomposition on the real tables' shapes; numeric search over class x native set x placement x "
-                     "boundary parameters, Haar + non-generic unitaries through the ZYZ/KAK path, random circuits")
+                     "boundary parameters, Haar + non-generic unitaries through the ZYZ/KAK path, random circuits; histories: "
+                     "in-place parameter updates (attribute, set_parameters list/dict/flat) between translations of the same objects, "
+                     "one Unroller reused, circuits sharing gate objects, re-parametrised outputs, tables called before/after an update")
